@@ -24,6 +24,7 @@ func rulesC07(c *Ctx) {
 	c.NotDec = append(c.NotDec, "field-for-field payload fidelity through proto → paths → ygot → gNMI → proto: the conversion is reflective third-party code (protomap, ytypes) with no source-level shape in this repository; the known loss of pop-top-label happens inside it", "Get(ALL) = disjoint union on concrete RIBs (follows from R7.1 structurally)")
 	ruleGetRIBBlocks(c)
 	ruleConcreteProtoPaths(c)
+	ruleWireFieldRoundTrip(c)
 	ruleDoGetScope(c)
 	ruleDoGetGuards(c)
 	ruleGetForwards(c)
